@@ -329,19 +329,27 @@ func (c *Coordinator) alleviateShardHeadSeries(s *shardInfo, changeAbleShards []
 	c.log.Infof("%s need alleviate head series, cur = %d, exp = %d", s.shard.ID, total, expSeries)
 	alleviateShardsTotal.WithLabelValues().Inc()
 
+	tooBig := false
 	for hash, tar := range s.scraping {
 		if total <= expSeries {
 			break
 		}
 
+		settled := tar.TargetState == target.StateNormal && tar.Health == scrape.HealthGood && tar.ScrapeTimes >= minWaitScrapeTimes
+
 		// a too big target keeps this shard overloaded whatever else is moved away,
 		// also while it is not (yet) a candidate for being moved itself
+		// (it is passed over, not a reason to give the shard up: what can be moved is moved whatever the order of the map)
 		if tar.Series > c.option.MaxHeadSeries || tar.TotalSeries > c.option.MaxProcessSeries {
-			c.log.Warnf("too big series [%d] series is [%d], skip alleviate", hash, tar.Series)
-			return 0
+			c.log.Warnf("too big series [%d] series is [%d], skip it", hash, tar.Series)
+			tooBig = true
+			if settled { // only then it is part of total
+				total -= tar.Series
+			}
+			continue
 		}
 
-		if tar.TargetState != target.StateNormal || tar.Health != scrape.HealthGood || tar.ScrapeTimes < minWaitScrapeTimes {
+		if !settled {
 			continue
 		}
 
@@ -361,7 +369,8 @@ func (c *Coordinator) alleviateShardHeadSeries(s *shardInfo, changeAbleShards []
 		}
 	}
 
-	if total > expSeries {
+	// expSeries was chosen from a load the too big target is part of: what is left is not a reason for a new shard
+	if total > expSeries && !tooBig {
 		return total - expSeries
 	}
 	return 0
@@ -382,14 +391,20 @@ func (c *Coordinator) alleviateShardProcessSeries(s *shardInfo, changeAbleShards
 			break
 		}
 
+		settled := tar.TargetState == target.StateNormal && tar.Health == scrape.HealthGood && tar.ScrapeTimes >= minWaitScrapeTimes
+
 		// a too big target keeps this shard overloaded whatever else is moved away,
 		// also while it is not (yet) a candidate for being moved itself
+		// (it is passed over, not a reason to give the shard up: what can be moved is moved whatever the order of the map)
 		if tar.TotalSeries > c.option.MaxProcessSeries {
-			c.log.Warnf("too big series [%d] series is [%d], skip alleviate", hash, tar.Series)
-			return 0
+			c.log.Warnf("too big series [%d] series is [%d], skip it", hash, tar.Series)
+			if settled { // only then it is part of total
+				total -= tar.TotalSeries
+			}
+			continue
 		}
 
-		if tar.TotalSeries == 0 || tar.TargetState != target.StateNormal || tar.Health != scrape.HealthGood || tar.ScrapeTimes < minWaitScrapeTimes {
+		if tar.TotalSeries == 0 || !settled {
 			continue
 		}
 
